@@ -11,6 +11,7 @@ From VL Require Import Prelude.PyDict Model.GetNBest Model.Divisor Model.Highest
      Proofs.Dict_proofs Proofs.GetNBest_proofs Proofs.QOrd Proofs.HA_proofs Proofs.Divisor_proofs Proofs.Shape_proofs
      Proofs.QD_proofs Proofs.STV_proofs.
 From VL Require Model.Convert Model.Condorcet Model.Cardinal Model.Bucklin Model.Star Proofs.Shape2_proofs.
+From VL Require Proofs.Schwartz_proofs.
 Import ListNotations.
 
 (* normal form of every get_n_best result (plurality, approval, positional, score voting ... all end
@@ -231,10 +232,16 @@ Theorem C08_shape_condorcet_winner : forall v : Condorcet.pvotes,
   (length (Condorcet.condorcet_winner v) <= 1)%nat.
 Proof. exact Shape3_proofs.condorcet_winner_shape. Qed.
 
-(* Smith set (ties = true) and Schwartz set (ties = false), any pairwise dictionary *)
+(* the Smith routine (SmithSet runs it with ties = true; ties = false is the prefix routine SchwartzSet ran before the repair
+   fixes/C06-schwartz-set), any pairwise dictionary *)
 Theorem C08_shape_smith_schwartz : forall (v : Condorcet.pvotes) (ties : bool),
   NoDup (Condorcet.smith_schwartz v ties) /\ incl (Condorcet.smith_schwartz v ties) (Condorcet.candidates v).
 Proof. exact Shape3_proofs.smith_schwartz_shape. Qed.
+
+(* Schwartz set (SchwartzSet after the repair: Condorcet.schwartz_set), any pairwise dictionary *)
+Theorem C08_shape_schwartz_set : forall v : Condorcet.pvotes,
+  NoDup (Condorcet.schwartz_set v) /\ incl (Condorcet.schwartz_set v) (Condorcet.candidates v).
+Proof. exact Schwartz_proofs.schwartz_set_shape. Qed.
 
 (* open list: exactly n distinct members of the list, for every configuration *)
 Theorem C08_shape_openlist : forall cfg (votes : list (C * Q)) (n : nat) (lst : list C),
@@ -401,6 +408,7 @@ Print Assumptions C08_shape_threshold.
 Print Assumptions C08_shape_bracketer.
 Print Assumptions C08_shape_condorcet_winner.
 Print Assumptions C08_shape_smith_schwartz.
+Print Assumptions C08_shape_schwartz_set.
 Print Assumptions C08_shape_openlist.
 Print Assumptions C08_shape_quota_selector_partial.
 Print Assumptions C08_shape_quota_selector_refuted.
